@@ -13,7 +13,15 @@ Decided (addons/savehar.py::SaveHar.flow_entry vs io/har.py::request_to_flow):
         least for POST, PUT and PATCH; the importer takes ``postData.text`` whenever present and passes it to
         ``Request.make`` as the body; every key the importer requires unconditionally (subscript access) is written
         by the exporter in every branch.
-NOT decided: header/body equality, charset handling of the bodies, timings.
+  R41.4 "in the same order": ``SaveHar.make_har`` and ``FlowReader.stream`` are INTERPRETED from their AST (pyint; nothing
+        is imported or run) on flow lists whose generated entries carry, under every key ``flow_entry`` writes, values that
+        increase / decrease / zig-zag with the position (``flow_entry`` and ``request_to_flow`` are replaced by tagging
+        stubs; they are the subject of R41.1-R41.3).  ``make_har(flows)["log"]["entries"]`` must be exactly the entries of
+        the HTTP flows, in the order of ``flows`` (non-HTTP flows skipped), and ``stream()`` must yield one flow per
+        element of ``log.entries`` in file order; ``export_har`` and ``done`` must serialise what ``make_har`` returns
+        for the flows they were given.  Any re-ordering that depends on the entries' content (sorting by start time,
+        duration, URL ...), a reversal, or a drop / duplication makes the i-th imported flow differ from the i-th exported.
+NOT decided: header/body equality, charset handling of the bodies, timings; the order in which ``hardump`` collects flows.
 """
 
 from __future__ import annotations
@@ -31,10 +39,11 @@ from ._helpers_E import show
 PROP = "C41"
 REG = {
     "strength": "narrow",
-    "technique": "vocabulary agreement: literals tested by Message.is_http* x evaluation of the importer's match statements; key-path agreement between exporter dict literals and importer subscripts; path rule for postData",
+    "technique": "vocabulary agreement: literals tested by Message.is_http* x evaluation of the importer's match statements; key-path agreement between exporter dict literals and importer subscripts; "
+    "path rule for postData; interpretation (pyint) of make_har / FlowReader.stream over position-tagged entries for the order clause",
     "claim": "every canonical HTTP version literal of mitmproxy that SaveHar exports verbatim is imported as itself (HTTP/2.0 reported "
     "separately as R41.3); postData is exported for POST/PUT/PATCH and imported as the request body; all keys the importer requires "
-    "are exported.",
+    "are exported; make_har lists the entries of the HTTP flows in the order given and FlowReader.stream yields them in file order.",
     "note": "Foreign version spellings are out of scope. Header and body equality are not decided.",
 }
 
@@ -77,10 +86,7 @@ def _keys(d: ast.Dict):
     return {k.value: v for k, v in zip(d.keys, d.values) if isinstance(k, ast.Constant)}
 
 
-def check(ctx):
-    ctx.rule("R41.1", "each canonical HTTP version literal other than HTTP/2.0 exported by SaveHar is imported as itself (request and response)")
-    ctx.rule("R41.2", "postData exported for POST/PUT/PATCH and imported as the request body; all keys the importer requires are exported")
-    ctx.rule("R41.3", "the canonical HTTP/2 literal exported by SaveHar is imported as itself (known defect F-C41 on today's tree)")
+def _r41_123(ctx):
     vocab = _vocabulary(ctx)
     ctx.note(f"canonical version literals: {vocab}")
     fe = ctx.func(SH, "SaveHar.flow_entry")
@@ -259,6 +265,185 @@ def check(ctx):
     expect(ctx, H2_RULE, 2)
 
 
+# ---------------------------------------------------------------------------------------------------
+# R41.4: order of the entries (exporter) and of the imported flows (importer)
+
+IO = "mitmproxy/io/io.py"
+
+
+def _stub_entry(ctx, fe, rank: int, tag: str) -> dict:
+    """an entry shaped like flow_entry's dict literals, every leaf ordered by ``rank`` (so that a sort on ANY exported key is visible)"""
+    ex = _exporter(ctx, fe)
+
+    def shape(d: ast.Dict, depth=0):
+        out = {}
+        for k, v in _keys(d).items():
+            if isinstance(v, ast.Dict) and depth < 3:
+                out[k] = shape(v, depth + 1)
+            elif isinstance(v, ast.Name) and v.id == "response" and ex["response"]:
+                out[k] = shape(ex["response"][0], depth + 1)
+            elif k.endswith("DateTime"):
+                out[k] = f"2001-01-{rank + 1:02d}T00:00:00+00:00"
+            else:
+                out[k] = float(rank)
+        return out
+
+    e = shape(ex["entry"][0])
+    ctx.require("startedDateTime" in e and len(e) >= 4, f"SaveHar.flow_entry: entry literal has keys {sorted(e)} (startedDateTime expected)")
+    e["_tag"] = tag
+    return e
+
+
+def r41_4(ctx):
+    import datetime
+    import itertools
+    import json
+    import types
+
+    from ..pyint import Func
+    from ..pyint import Interp
+    from ..pyint import Raised
+    from ..pyint import Rec
+
+    class StubInterp(Interp):
+        """pyint + (a) rule-supplied stubs may receive abstract records, (b) interpreted functions handed to native callables (sort keys) are wrapped"""
+
+        def native_call(self, f, args, kwargs, where):
+            if getattr(f, "_stub", False):
+                return f(*args, **kwargs)
+
+            def wrap(v):
+                return (lambda *a, **k: self.apply(v, list(a), k, 0)) if isinstance(v, Func) else v
+
+            return super().native_call(f, [wrap(a) for a in args], {k: wrap(v) for k, v in kwargs.items()}, where)
+
+        def name(self, ident, env, mod, depth, node):
+            if ident in ("map", "filter") and ident not in env and mod.get(ident) is None and ident not in mod.imports and not mod.assigns(ident):
+                return ("$builtin", ident)
+            return super().name(ident, env, mod, depth, node)
+
+        def builtin(self, name, args, kwargs, e, env, mod, depth):
+            if name == "map" and len(args) >= 2:
+                return iter([self.apply(args[0], list(xs), {}, depth, e) for xs in zip(*[list(self.iterate(a, e)) for a in args[1:]])])
+            if name == "filter" and len(args) == 2:
+                return iter([x for x in list(self.iterate(args[1], e)) if self.truthy(x if args[0] is None else self.apply(args[0], [x], {}, depth, e))])
+            return super().builtin(name, args, kwargs, e, env, mod, depth)
+
+    m = ctx.model
+    fe = ctx.func(SH, "SaveHar.flow_entry")
+    mh = ctx.func(SH, "SaveHar.make_har")
+    mp = params(mh)
+    ctx.require(len(mp) == 1, "SaveHar.make_har(flows) signature changed")
+    trusted = {"json": json, "datetime": datetime, "logging": types.SimpleNamespace(getLogger=lambda *a: None, log=lambda *a, **k: None)}
+    quiet = types.SimpleNamespace(**{n: (lambda *a, **k: None) for n in ("debug", "info", "warning", "warn", "error", "log")})
+
+    # ---- exporter: entries follow the flows
+    orders = [(0, 1, 2), (2, 1, 0), (1, 2, 0)] if ctx.tier != "thorough" else list(itertools.permutations(range(4)))
+    n_exp = 0
+    bad = None
+    for ranks in orders:
+        for skip_at in (None, 1):
+            it = StubInterp(m, trusted_modules=trusted)
+            it.overrides[(SH, "logger")] = quiet
+            flows, made = [], {}
+            for i, r in enumerate(ranks):
+                if skip_at == i:
+                    flows.append(Rec("TCPFlow", _bases=("Flow",), _name="tcp"))
+                flows.append(Rec("HTTPFlow", _bases=("Flow",), _name=f"http{i}", rank=r))
+
+            def flow_entry(flow, *a, _made=made, **k):
+                _made[flow._name] = _stub_entry(ctx, fe, flow.rank, flow._name)
+                return _made[flow._name]
+
+            flow_entry._stub = True
+            me = Rec("SaveHar", _impl=(SH, "SaveHar"), flow_entry=flow_entry, flows=[], filt=None)
+            try:
+                har = it.method(me, "make_har", list(flows))
+            except Raised as r:
+                ctx.require(False, f"SaveHar.make_har: the interpretation on tagged flows ends with {r.name} ({r.msg}): not modelled")
+            ctx.require(isinstance(har, dict) and isinstance(har.get("log"), dict) and isinstance(har["log"].get("entries"), list), "SaveHar.make_har does not return {'log': {'entries': [...]}}")
+            got = [e.get("_tag") if isinstance(e, dict) else repr(e) for e in har["log"]["entries"]]
+            want = [f._name for f in flows if f.isa("HTTPFlow")]
+            n_exp += 1
+            if got != want and bad is None:
+                bad = (ranks, skip_at, got, want)
+    ctx.cells += n_exp
+    if bad:
+        ranks, skip_at, got, want = bad
+        ctx.fail("R41.4", (SH, "SaveHar.make_har", mh), f"make_har: flows {want} with start times / durations ranked {list(ranks)} are exported as {got}"[:300],
+                 "the exported entries are not the HTTP flows' entries in the order given: the i-th imported flow is not the i-th exported one")
+    else:
+        ctx.ok("R41.4", f"make_har: log.entries follow the given flows on {n_exp} tagged flow lists (non-HTTP flows skipped)")
+
+    # ---- export_har / done serialise make_har(<the flows they were given>)
+    for qual, want_arg in (("SaveHar.export_har", None), ("SaveHar.done", "self.flows")):
+        fn = ctx.func(SH, qual)
+        want = want_arg or (params(fn)[0] if params(fn) else None)
+        calls = [c for c in ast.walk(fn) if isinstance(c, ast.Call) and attr_chain(c.func) in ("self.make_har", "self.export_har")]
+        ctx.require(calls, f"{qual}: no call of self.make_har / self.export_har (export path not modelled)")
+        okc = all(c.args and attr_chain(c.args[0]) == want and not isinstance(c._parent, ast.Subscript) for c in calls)
+        ctx.check(okc, "R41.4", (SH, qual, calls[0]), f"{qual}: {', '.join(ast.unparse(c) for c in calls)}"[:200],
+                  f"the HAR is not built from {want} as given", desc=f"{qual} serialises make_har({want})")
+
+    # ---- importer: one flow per entry, in file order
+    st = ctx.func(IO, "FlowReader.stream")
+    n_imp = 0
+    bad = None
+    for ranks in orders:
+        entries = [_stub_entry(ctx, fe, r, f"entry{i}") for i, r in enumerate(ranks)]
+        data = json.dumps({"log": {"version": "1.2", "creator": {"name": "x", "version": "1", "comment": ""}, "pages": [], "entries": entries}}).encode()
+
+        class FakeFile:  # position-less: the generator is replayed by pyint, reads must be idempotent
+            def peek(self, n=0):
+                return data[:n] if n else data
+
+            def read(self, n=-1):
+                return data if n is None or n < 0 else b""
+
+            def tell(self):
+                return 0
+
+            def seek(self, *a):
+                return 0
+
+        it = StubInterp(m, trusted_modules={**trusted, "io": __import__("io"), "os": types.SimpleNamespace()})
+
+        def request_to_flow(entry):
+            return ("flow-of", entry.get("_tag") if isinstance(entry, dict) else repr(entry))
+
+        request_to_flow._stub = True
+        it.overrides[(IO, "request_to_flow")] = request_to_flow
+        reader = Rec("FlowReader", _impl=(IO, "FlowReader"), fo=FakeFile())
+        try:
+            got = [x[1] if isinstance(x, tuple) and x and x[0] == "flow-of" else repr(x) for x in it.iterate(it.method(reader, "stream"), st)]
+        except Raised as r:
+            ctx.require(False, f"FlowReader.stream: the interpretation on a tagged HAR file ends with {r.name} ({r.msg}): not modelled")
+        want = [e["_tag"] for e in entries]
+        n_imp += 1
+        if got != want and bad is None:
+            bad = (ranks, got, want)
+    ctx.cells += n_imp
+    if bad:
+        ranks, got, want = bad
+        ctx.fail("R41.4", (IO, "FlowReader.stream", st), f"stream: a HAR file with entries {want} (start times / durations ranked {list(ranks)}) is read as {got}"[:300],
+                 "the imported flows are not the file's entries in file order")
+    else:
+        ctx.ok("R41.4", f"FlowReader.stream: one request_to_flow(entry) per log.entries element, in file order, on {n_imp} tagged files")
+    ctx.bounds.append(f"R41.4: {len(orders)} rank orders of {len(orders[0])} HTTP flows (with / without an interleaved non-HTTP flow); every key of flow_entry's literals ordered by the rank")
+    ctx.trust("json, datetime (R41.4: handed to the interpreter as trusted modules)")
+    expect(ctx, "R41.4", 4)
+
+
+def check(ctx):
+    ctx.rule("R41.1", "each canonical HTTP version literal other than HTTP/2.0 exported by SaveHar is imported as itself (request and response)")
+    ctx.rule("R41.2", "postData exported for POST/PUT/PATCH and imported as the request body; all keys the importer requires are exported")
+    ctx.rule("R41.3", "the canonical HTTP/2 literal exported by SaveHar is imported as itself (known defect F-C41 on today's tree)")
+    ctx.rule("R41.4", "make_har lists the entries of the HTTP flows in the order given, FlowReader.stream yields one flow per entry in file order (interpreted over position-tagged entries)")
+    # each group is guarded: a shape one rule does not model must not hide a violation found by another
+    ctx.guard(_r41_123, ctx)
+    ctx.guard(r41_4, ctx)
+
+
 MUTANTS = [
     Mutant("revert-fix-request-http10", HAR, "        case \"HTTP/1.0\":\n            new_flow.request.http_version = \"HTTP/1.0\"\n", "", "R41.1"),
     Mutant("revert-fix-response-http10", HAR, "        case \"HTTP/1.0\":\n            new_flow.response.http_version = \"HTTP/1.0\"\n", "", "R41.1"),
@@ -270,5 +455,13 @@ MUTANTS = [
     Mutant("postdata-text-missing", SH, "                \"text\": flow.request.get_text(strict=False),\n", "", "R41.2"),
     Mutant("importer-reads-wrong-postdata-key", HAR, "request_content = request_json[\"request\"][\"postData\"][\"text\"]", "request_content = request_json[\"request\"][\"postData\"][\"mimeType\"]", "R41.2"),
     Mutant("importer-drops-body", HAR, "        request_method, request_url, request_content, request_headers\n", "        request_method, request_url, \"\", request_headers\n", "R41.2"),
+    Mutant("entries-sorted-by-start-time", SH, "        if skipped > 0:\n            logger.info(", "        entries.sort(key=lambda entry: entry[\"startedDateTime\"])\n        if skipped > 0:\n            logger.info(", "R41.4"),
+    Mutant("entries-newest-first", SH, "                \"entries\": entries,\n", "                \"entries\": entries[::-1],\n", "R41.4"),
+    Mutant("entries-sorted-by-duration", SH, "                \"entries\": entries,\n", "                \"entries\": sorted(entries, key=lambda e: e[\"time\"], reverse=True),\n", "R41.4"),
+    Mutant("exporter-prepends-entries", SH, "                entries.append(self.flow_entry(f, servers_seen))\n", "                entries.insert(0, self.flow_entry(f, servers_seen))\n", "R41.4"),
+    Mutant("importer-sorts-entries-by-start-time", IO, "                for request_json in har_file[\"log\"][\"entries\"]:\n",
+           "                for request_json in sorted(har_file[\"log\"][\"entries\"], key=lambda e: e[\"startedDateTime\"]):\n", "R41.4"),
+    Mutant("importer-skips-first-entry", IO, "                for request_json in har_file[\"log\"][\"entries\"]:\n", "                for request_json in har_file[\"log\"][\"entries\"][1:]:\n", "R41.4"),
+    Mutant("hardump-exports-filtered-copy-reversed", SH, "                har = self.make_har(self.flows)\n", "                har = self.make_har(self.flows[::-1])\n", "R41.4"),
     Mutant("exporter-renames-required-key", SH, "                \"status\": flow.response.status_code,\n", "                \"statusCode\": flow.response.status_code,\n", "R41.2"),
 ]
